@@ -119,3 +119,41 @@ Definition decode_rlp (bytes : list N) : option validators :=
   | ROk arr => decode arr
   | _ => None
   end.
+
+(* ---------- DecodeRLP as a step on an existing target ----------
+   func (vv *Validators) DecodeRLP(s): decode the array (on error return it, *vv untouched);
+   builder := NewBuilder(); Set each entry; *vv = *builder.Build()  - the whole object is replaced
+   (Build may panic: target untouched, panic propagates). *)
+Inductive dres := DOk (v : validators) | DErr | DPanic.
+
+Definition decode_step (t : validators) (bytes : list N) : validators * dres :=
+  match decode_rlp_array bytes with
+  | ROk arr =>
+      match build arr with
+      | Some v => (v, DOk v)
+      | None => (t, DPanic)
+      end
+  | _ => (t, DErr)
+  end.
+
+(* successive decodes into one reused target *)
+Fixpoint decode_run (t : validators) (bss : list (list N)) : list dres :=
+  match bss with
+  | [] => []
+  | bs :: r => let (t', o) := decode_step t bs in o :: decode_run t' r
+  end.
+
+Definition empty_validators : validators := mkValidators [] (mkCache [] [] [] 0).
+(* decoding into a fresh &Validators{} *)
+Definition decode_fresh (bytes : list N) : dres := snd (decode_step empty_validators bytes).
+
+(* contrast (NOT the code): filling the target's map in place instead of replacing the object *)
+Definition decode_step_inplace (t : validators) (bytes : list N) : validators * dres :=
+  match decode_rlp_array bytes with
+  | ROk arr =>
+      match new_validators (apply_sets arr (v_values t)) with
+      | Some v => (v, DOk v)
+      | None => (t, DPanic)
+      end
+  | _ => (t, DErr)
+  end.
